@@ -197,6 +197,30 @@ def wk_warm():
         shutil.rmtree(d, ignore_errors=True)
 
 
+def classify_any(sql):
+    """Adder mode: every statement that reads or writes user data or schema is a point ('R','W','U','D','S'); PRAGMA,
+    transaction control and catalogue queries are not."""
+    idents = [m.group(1) or m.group(2) or m.group(3) or m.group(4) for m in _TOK.finditer(sql)]
+    idents = [t for t in idents if t]
+    if not idents:
+        return None
+    first = idents[0].upper()
+    if first in _NOT_POINTS or _SCHEMA_TABLES & set(t.lower() for t in idents):
+        return None
+    if first in _SCHEMA_VERBS:
+        return "S"
+    return {"SELECT": "R", "INSERT": "W", "REPLACE": "W", "UPDATE": "U", "DELETE": "D"}.get(first)
+
+
+_MODE = "create"
+_CONNS = []
+
+
+def _in_write_txn():
+    """Is any of this process's DBAPI connections inside a transaction?  (sqlite3 opens one only before a write.)"""
+    return any(getattr(c, "in_transaction", False) for c in _CONNS)
+
+
 def wk_install(api):
     global _API
     _API = api
@@ -207,25 +231,55 @@ def wk_install(api):
     def _on_connect(dbapi_con, rec):                       # noqa
         if isinstance(dbapi_con, sqlite3.Connection):
             dbapi_con.execute("PRAGMA busy_timeout = 0")
+            _CONNS.append(dbapi_con)
 
     @event.listens_for(Engine, "before_cursor_execute")
     def _before(conn, cursor, statement, parameters, context, executemany):   # noqa
-        k = classify(statement) if _ARMED else None
+        if not _ARMED:
+            return
+        k = classify_any(statement) if _MODE == "add" else classify(statement)
         if k:
-            api.point(k, {"sql": " ".join(statement.split())[:120], "params": _ids_only(parameters)})
+            info = {"sql": " ".join(statement.split())[:120], "params": _ids_only(parameters)}
+            if _MODE == "add":
+                info["in_write_txn"] = _in_write_txn()
+            api.point(k, info)
 
     @event.listens_for(Engine, "handle_error")
     def _on_error(ectx):                                   # noqa
         if _ARMED and _is_lock_error(ectx.original_exception):
             api.flag("blocked")
 
+    # adder: the two long computations of Session.add() are scheduling points of their own ('P' parse, 'X' xref)
+    import androguard.core.dex as dexmod
+    from androguard.core.analysis.analysis import Analysis
+
+    def _wrap(cls, name, kind):
+        orig = getattr(cls, name)
+
+        def hooked(self, *a, **k):
+            if _ARMED and _MODE == "add":
+                api.point(kind, {"compute": "%s.%s" % (cls.__name__, name), "in_write_txn": _in_write_txn()})
+            return orig(self, *a, **k)
+        hooked.__wrapped__ = orig
+        setattr(cls, name, hooked)
+
+    _wrap(dexmod.DEX, "__init__", "P")
+    _wrap(Analysis, "create_xref", "X")
+
 
 def wk_run(arg):
-    global _ARMED
+    """op 'create' (default): construct a Session.  op 'add': Session.add() of a tiny DEX on the session this worker
+    already owns (created before the schedule by an unscheduled 'create')."""
+    global _ARMED, _MODE
     from androguard.session import Session
+    _MODE = arg.get("op", "create")
     _ARMED = True
     try:
-        s = Session(db_url=arg["db_url"])
+        if _MODE == "add":
+            res = {"digest": _jsonable(_LIVE[-1].add("t.dex", bytes.fromhex(arg["dex"])))}
+        else:
+            s = Session(db_url=arg["db_url"])
+            res = None
     except Exception as e:
         o = getattr(e, "orig", e)
         if _is_lock_error(o) or _is_lock_error(e):
@@ -233,6 +287,8 @@ def wk_run(arg):
         raise
     finally:
         _ARMED = False
+    if res is not None:
+        return res
     _LIVE.append(s)           # sessions are long-lived objects: keep it (and its connection) until the schedule ends
     return {"session_id": _jsonable(s.session_id)}
 
@@ -246,6 +302,7 @@ def wk_failed():
 
 def wk_reset():
     import gc
+    del _CONNS[:]
     while _LIVE:
         s = _LIVE.pop()
         try:
@@ -269,6 +326,8 @@ RELEASED_ROWS = [0, 1]
 
 class Init:
     """One initial state of the exploration: a template database directory copied afresh for every schedule."""
+    adder = False
+    long_pause = None
     def __init__(self, name, template, pre, lazy):
         self.name, self.template, self.pre, self.lazy = name, template, pre, lazy
         self.files = sorted(os.listdir(template))
@@ -279,6 +338,37 @@ class Init:
         for f in self.files:
             shutil.copyfile(os.path.join(self.template, f), os.path.join(group.dir, f))
         return {"db_url": "sqlite:///%s/s.db" % group.dir}
+
+
+def tiny_dex():
+    """A minimal valid DEX (one class, one method 'return-void') from the independent writer gen/dexgen.py."""
+    from gen import dexgen as G
+    m = G.Method("m", "V", (), G.ACC_PUBLIC, G.Code(registers=1, ins=1, outs=0, insns=b"\x0e\x00"))
+    return G.build(G.Dex([G.Class("Lt/A;", vmethods=[m])]))
+
+
+class AdderInit(Init):
+    """Initial state of the adder dimension: the warmed database plus one more session, owned by worker 1 (the ADDER),
+    created unscheduled before every schedule.  Worker 1's scheduled operation is Session.add(<tiny DEX>) with a point
+    at every SQL statement and at the parse ('P') and xref ('X') computations; the other workers create sessions."""
+    adder = True
+
+    def __init__(self, warmed):
+        Init.__init__(self, "adder", warmed.template, None, True)
+        self.dex = tiny_dex().hex()
+
+    def fresh(self, group):
+        from mc import sched
+        group.reset([0])                                    # drop the adder session of the previous schedule
+        arg = Init.fresh(self, group)
+        ev = group.call(0, dict(arg, op="create"))
+        if ev["ev"] != "done":
+            raise sched.SchedError("the adder could not create its own session: %r" % (ev,))
+        return [dict(arg, op="add", dex=self.dex)] + [dict(arg, op="create")] * (len(group.workers) - 1)
+
+    @staticmethod
+    def long_pause(ev):
+        return bool(ev) and ev.get("kind") in ("P", "X")
 
 
 class Env:
@@ -315,6 +405,7 @@ class Env:
                 con.close()
             self.inits = {"warmed": Init("warmed", t, pre, True),
                           "released": Init("released", t2, list(RELEASED_ROWS), False)}
+            self.inits["adder"] = AdderInit(self.inits["warmed"])
             if _read_rows(os.path.join(t2, "s.db")) != RELEASED_ROWS:
                 raise sched.SchedError("released-layout template not built as intended")
             self.pre = pre
@@ -390,11 +481,13 @@ def shape_class(run):
     return "other-write-inside-window" if write_inside else "overlap-without-write"
 
 
-def judge(n, run, pre):
-    """The oracle.  None if the property holds on this complete schedule, else a message."""
+def judge(n, run, pre, creators=None):
+    """The oracle.  None if the property holds on this complete schedule, else a message.
+    creators: the workers whose operation is a Session() construction (default: all)."""
     bad = []
     ids = []
-    for w in range(n):
+    creators = list(range(n)) if creators is None else list(creators)
+    for w in creators:
         f = run.final[w]
         if f is None or f["ev"] != "done":
             bad.append("constructor of worker %d did not return: %s: %s"
@@ -417,8 +510,8 @@ def judge(n, run, pre):
                 new.remove(p)
             else:
                 bad.append("pre-existing row %r disappeared" % (p,))
-        if len(new) != n:
-            bad.append("table session has %d new rows %r, expected %d" % (len(new), new, n))
+        if len(new) != len(creators):
+            bad.append("table session has %d new rows %r, expected %d" % (len(new), new, len(creators)))
     if not bad:
         return None
     return "N=%d schedule [%s] (%s): %s" % (n, schedule_text(run), shape_class(run), "; ".join(bad))
@@ -429,7 +522,7 @@ def outcome_of(n, run):
     per = []
     for w in range(n):
         f = run.final[w]
-        per.append(("done", f["result"]["session_id"]) if f and f["ev"] == "done" else ("exc", f and f.get("type")))
+        per.append(("done", f["result"].get("session_id", "added")) if f and f["ev"] == "done" else ("exc", f and f.get("type")))
     return (n, tuple(sorted(per, key=repr)), tuple(run.steps[-1].obs) if run.steps and isinstance(run.steps[-1].obs, list) else None)
 
 
@@ -458,13 +551,14 @@ def states_of(n, run):
 
 def sample_of(n, run, verdict):
     return {"N": n, "schedule": schedule_text(run), "class": shape_class(run),
-            "ids": [f["result"]["session_id"] if f and f["ev"] == "done" else "%s" % (f and f.get("type")) for f in run.final],
+            "ids": [f["result"].get("session_id", "added") if f and f["ev"] == "done" else "%s" % (f and f.get("type")) for f in run.final],
             "rows_before": run.obs0, "rows_after_each_step": [s.obs for s in run.steps], "holds": verdict is None}
 
 
 # ---- direct exploration -------------------------------------------------------------------------------
 def shards(ctx):
     return ([("explore", 2), ("explore", 3), ("released", 2)] + ([("released", 3)] if ctx.thorough else [])
+            + [("adder", 1), ("adder", 2)]
             + [("tlc", n) for n in (TLC_N_THOROUGH if ctx.thorough else TLC_N_QUICK)])
 
 
@@ -529,6 +623,92 @@ def run_explore(ctx, n, init_name="warmed"):
         acc.harness_error(ktag + "N=%d: no statement on table session was seen in any constructor: the SQLAlchemy hook is dead" % n)
     if not ex.complete and not ex.deadlocks() and not ex.errors:
         acc.harness_error(ktag + "N=%d: no complete schedule exists (every schedule pruned as infeasible)" % n)
+    return acc
+
+
+# ---- adder dimension: one worker that owns a session runs Session.add() while 1..2 others create sessions ----
+ADDER_KEY = "adder-holds-lock:creation-failed"
+
+
+def judge_adder(n, run):
+    """-> (key, message) or None.  Oracle of C36 for the creators (workers 2..n); the adder's own add() is not judged."""
+    pre = run.obs0 if isinstance(run.obs0, list) else []
+    msg = judge(n, run, pre, creators=range(1, n))
+    if msg is None:
+        return None
+    held = [w for w in range(1, n) if run.final[w] and run.final[w].get("blocked_by_long_pause")]
+    if held:
+        at = sorted(set(step_kinds(s) for s in run.steps if s.w == 0))
+        return ADDER_KEY, ("1 adder (worker 1, Session.add of a tiny DEX) + %d creator(s): creator worker(s) %s hit a database "
+                           "lock held by the adder while it was paused inside a long computation (parse / xref point): with "
+                           "a real file that lasts longer than SQLite's busy timeout the session is not created. " % (n - 1, [w + 1 for w in held])) + msg
+    return "adder+%dcreators:%s" % (n - 1, shape_class(run)), "1 adder + %d creator(s): %s" % (n - 1, msg)
+
+
+def run_adder(ctx, c):
+    env = _env(ctx)
+    acc = Acc()
+    init = env.inits["adder"]
+    n = 1 + c
+    ex = env.sched.explore(env.pool, n, init.fresh, env.observe, rerun=True, lazy=True, long_pause=init.long_pause)
+    for e in ex.errors:
+        acc.harness_error("adder+%d: %s" % (c, e))
+    if ex.capped:
+        acc.capped = ex.capped
+    adder_kinds = set()
+    open_txn = []
+    pick = ctx.seed % max(1, len(ex.complete))
+    bad_sampled = False
+    nviol = 0
+    for i, sched in enumerate(sorted(ex.complete)):
+        run = ex.complete[sched]
+        v = judge_adder(n, run)
+        acc.case(nontrivial=("adder", n, sched), outcome=("adder", outcome_of(n, run)))
+        acc.traces += 1
+        acc.transitions += len(run.steps)
+        for x in states_of(n, run)[0]:
+            acc.state(("adder", n, x))
+        for st in run.steps:
+            if st.w == 0:
+                adder_kinds.update(step_kinds(st).replace("-", ""))
+                ev = st.ev
+                if ev["ev"] == "point" and ev.get("kind") in ("P", "X") and isinstance(ev.get("info"), dict) \
+                        and ev["info"].get("in_write_txn"):
+                    open_txn.append((sched, ev.get("kind")))
+        if run.final[0] is None or run.final[0]["ev"] != "done":
+            acc.note("adder+%d: the adder's own add() did not return in schedule [%s] (%s) - not judged by C36"
+                     % (c, schedule_text(run), run.final[0] and run.final[0].get("type")))
+        if v is not None:
+            nviol += 1
+            acc.violation(v[0], {"n": n, "init": "adder", "schedule": [w + 1 for w in sched], "text": schedule_text(run)}, v[1])
+        if i == 0 or i == pick or (v is not None and not bad_sampled):
+            acc.sample(dict(sample_of(n, run, v), init="adder (worker 1 = adder)"))
+            bad_sampled = bad_sampled or v is not None
+    for sched in sorted(ex.infeasible):
+        acc.transitions += len(ex.infeasible[sched].steps)
+    for prefix in ex.deadlocks():
+        acc.violation("adder+%dcreators:deadlock" % c, {"n": n, "init": "adder", "schedule": [w + 1 for w in prefix], "expect": "deadlock"},
+                      "1 adder + %d creator(s): after schedule prefix %r every unfinished worker is blocked by a paused one"
+                      % (c, [w + 1 for w in prefix]))
+    if open_txn and ADDER_KEY not in acc.viol:
+        sched, kind = open_txn[0]
+        acc.violation("adder-holds-lock:write-transaction-open-during-computation",
+                      {"n": n, "init": "adder", "schedule": [w + 1 for w in sched], "expect": "open-txn"},
+                      "the adder is paused at computation point %s inside an open write transaction (schedule %r) although no "
+                      "creator happened to fail" % (kind, [w + 1 for w in sched]))
+    acc.count("schedules_adder_%dcreators" % c, len(ex.complete))
+    acc.count("schedules_violating_adder_%dcreators" % c, nviol)
+    acc.count("adder_pauses_in_open_write_transaction", len(open_txn))
+    acc.count("infeasible_pruned", len(ex.infeasible))
+    acc.count("determinism_reruns", ex.reruns)
+    acc.note("adder+%d creators: adder steps execute statement kinds %s (S/W/... SQL statements of add(), P parse, X xref); "
+             "explored on the implementation only (the TLA+ models do not have the adder)" % (c, sorted(adder_kinds)))
+    if not ex.errors and not ex.capped:
+        if not {"W", "P"} <= adder_kinds:
+            acc.harness_error("adder+%d: the adder never passed a write and a parse point (%s): hooks dead or add() changed shape"
+                              % (c, sorted(adder_kinds)))
+        if len(ex.complete) < 2 and not ex.deadlocks():
+            acc.harness_error("adder+%d: fewer than two complete schedules" % c)
     return acc
 
 
@@ -824,6 +1004,8 @@ def run_shard(ctx, shard):
             return run_explore(ctx, shard[1])
         if shard[0] == "released":
             return run_explore(ctx, shard[1], "released")
+        if shard[0] == "adder":
+            return run_adder(ctx, shard[1])
         return run_tlc_shard(ctx, shard[1])
     except BaseException:
         _close_env()
@@ -860,7 +1042,7 @@ def replay(ctx, w):
     try:
         g = env.pool.groups[0]
         init = env.inits[w.get("init", "warmed")]
-        kw = dict(lazy=init.lazy)
+        kw = dict(lazy=init.lazy, long_pause=init.long_pause)
         if w.get("expect") == "deadlock":
             base = g.run(n, prefix, init.fresh, env.observe, strict=True, **kw)
             if base.status != "incomplete":
@@ -876,6 +1058,13 @@ def replay(ctx, w):
             raise sched.SchedError("witness schedule %r cannot be executed: %s" % (w["schedule"], run.status))
         if run.schedule[:len(prefix)] != prefix:
             raise sched.SchedError("witness schedule %r was not followed" % (w["schedule"],))
+        if init.adder:
+            if w.get("expect") == "open-txn":
+                bad = [s.ev.get("kind") for s in run.steps if s.w == 0 and s.ev["ev"] == "point" and s.ev.get("kind") in ("P", "X")
+                       and isinstance(s.ev.get("info"), dict) and s.ev["info"].get("in_write_txn")]
+                return "adder paused at %s inside an open write transaction" % bad if bad else None
+            v = judge_adder(n, run)
+            return v and v[1]
         return judge(n, run, init.pre)
     finally:
         env.close()
